@@ -76,6 +76,9 @@ class Ctx:
         self.axioms: list[Any] = []          # global axioms (string literal distinctness)
         self.deadline = 0.0
         self._axioms_added = 0
+        self._ghost_added = 0
+        self.ghost_axioms: list[Any] = []    # defining equations of ghost recurrences (per path)
+        self.recur_done: dict[Any, set] = {}
 
     # ---- symbols --------------------------------------------------------------------------
     def fresh_name(self, hint: str) -> str:
@@ -109,11 +112,17 @@ class Ctx:
         self.quant_depth = 0
         self.quant_obligs = []
         self._axioms_added = 0
+        self._ghost_added = 0
+        self.ghost_axioms = []
+        self.recur_done = {}
 
     def _sync_axioms(self) -> None:
         while self._axioms_added < len(self.axioms):
             self.solver.add(self.axioms[self._axioms_added])
             self._axioms_added += 1
+        while self._ghost_added < len(self.ghost_axioms):
+            self.solver.add(self.ghost_axioms[self._ghost_added])
+            self._ghost_added += 1
 
     def assume(self, cond: Any) -> None:
         cond = z3.simplify(cond) if z3.is_expr(cond) else z3.BoolVal(bool(cond))
@@ -229,6 +238,7 @@ class Ctx:
                     try:
                         tmp = z3.Solver()
                         tmp.add(*self.axioms)
+                        tmp.add(*self.ghost_axioms)
                         tmp.add(*self.pc)
                         tmp.add(z3.Not(goal))
                         ob.smt2 = tmp.to_smt2()
@@ -303,7 +313,7 @@ def sub_explore(ctx: Ctx, thunk: Callable[[], Any], max_paths: int = 600) -> lis
         while True:
             ctx.trace, ctx.pos = sub_trace, 0
             ctx._sync_axioms()
-            added = ctx._axioms_added
+            added = (ctx._axioms_added, ctx._ghost_added)
             ctx.solver.push()
             try:
                 value = thunk()
@@ -313,7 +323,7 @@ def sub_explore(ctx: Ctx, thunk: Callable[[], Any], max_paths: int = 600) -> lis
             finally:
                 del ctx.pc[base:]
                 ctx.solver.pop()
-                ctx._axioms_added = added
+                ctx._axioms_added, ctx._ghost_added = added
             count += 1
             if count > max_paths:
                 raise Unsupported("spec evaluation: too many paths")
